@@ -25,6 +25,23 @@ def coupled(cls, p, q):
     return any(p in g and q in g for g in COUPLED.get(cls, []))
 
 
+def split_top(s, sep):
+    """split at separators that are not inside {...} or [...] (nested structured values)"""
+    out, depth, cur = [], 0, ''
+    for ch in s:
+        if ch in '{[':
+            depth += 1
+        elif ch in '}]':
+            depth -= 1
+        if ch == sep and depth == 0:
+            out.append(cur)
+            cur = ''
+        else:
+            cur += ch
+    out.append(cur)
+    return out
+
+
 def parse_line(l):
     t = l.split(' ', 6)
     cls, par, caps, kind, nvals = t[1], t[2], t[3][5:], t[4][5:], int(t[5][6:])
@@ -44,7 +61,7 @@ def parse_line(l):
         own, _, others = rest.partition('|')
         h, d, g = own.split(',', 2)
         op, _, arg = head.partition('=')
-        oth = dict(x.split('=', 1) for x in others.split('/') if x)
+        oth = dict(x.split('=', 1) for x in split_top(others, '/') if x)
         steps.append(dict(op=op, arg=arg, has=h, isdef=d, get=g, others=oth))
     return cls, par, caps + ':' + kind, nvals, steps, exc
 
